@@ -6,6 +6,29 @@ import NV.C12.Model
 
 namespace NV.C12
 
+/-! ### bridging lemmas: the scheduling expressions regenerated from the source are the ones the theorems are about.
+A change of the cursor step / wrap, of the scan length, of the command-loop bound or of the grant condition in the C
+source changes `NV/Gen/C12.lean` and breaks the corresponding lemma here. -/
+
+open NV.Gen.C12 in
+/-- `if (s_next_user-- == 0) s_next_user = max_users - 1;` : decrementing cursor that wraps to the last slot -/
+@[simp] theorem cursorNext_spec (c m : Nat) : cursorNext c m = if c = 0 then m - 1 else c - 1 := rfl
+
+open NV.Gen.C12 in
+/-- one scan of get_user_command makes `max_users` iterations -/
+@[simp] theorem scanLength_spec (m : Nat) : scanLength m = m := rfl
+
+open NV.Gen.C12 in
+/-- `for (i = 0; process_user_command () && i < connected_users; i++);` allows `connected_users + 1` calls -/
+@[simp] theorem loopCalls_spec (cu m : Nat) : loopCalls cu m = cu + 1 := rfl
+
+open NV.Gen.C12 in
+/-- the grant loop gives a turn to, and counts, exactly the occupied slots -/
+@[simp] theorem grantCond_spec (b : Bool) : grantCond b = b := rfl
+
+open NV.Gen.C12 in
+@[simp] theorem countCond_spec (b : Bool) : countCond b = b := rfl
+
 /-! ### finite maps -/
 
 theorem AMap.get_filter_ne {α : Type} [Inhabited α] (m : AMap α) (k i : Nat) (h : i ≠ k) :
@@ -49,7 +72,7 @@ theorem decCursor_safe (w : World) (hs : Safe w) (hpos : 0 < w.slots.length) : S
     rcases hs.2 with h | h
     · exact h
     · omega
-  simp only [decCursor]
+  simp only [decCursor, cursorNext_spec]
   split <;> omega
 
 /-- what one iteration of the scan can do: it never touches table, cursor or crash flag; it only clears turns,
@@ -252,6 +275,7 @@ theorem getUserCommand_spec (w : World) (hs : Safe w) :
   have hn : w.slots.length = 0 ∨ 0 < w.slots.length := by omega
   obtain ⟨s1, s2, s3, s4⟩ := scan_spec w.slots.length w hs hn
   unfold getUserCommand
+  simp only [scanLength_spec]
   cases hsc : scan w.slots.length w with
   | mk w1 r =>
     rw [hsc] at s1 s2 s3 s4
